@@ -409,6 +409,9 @@ def wicks(expr, rules: Rules = None, simplify_kronecker_deltas: bool = False):
                 # indices must not be mistaken for target indices
                 target = Expr(expr).terms[0].target
                 result = evaluate_deltas(result, target_idx=target)
+    elif isinstance(expr, Pow) and \
+            isinstance(expr.base, FermionicOperator):
+        return S.Zero  # a_p a_p = 0
     else:  # neither add, Mul, NO or Operator -> maybe a number or a tensor
         return expr
 
